@@ -3992,6 +3992,9 @@ class _Fn:
                     raise self.bad(f"{type(n).__name__} inside the body of `try: … except EOFError:`")
                 if isinstance(n, ast.Call) and isinstance(n.func, ast.Name) and n.func.id in self.u.sigs and n.func.id not in self.local:
                     raise self.bad(f"call of {n.func.id} inside the body of `try: … except EOFError:`")
+                if isinstance(n, ast.Call) and self.t18_kind(n.func) not in (None, "t18type", "noop", "const"):
+                    # a registered function / class of another kind may raise EOFError itself (e.g. `Enum(bytes)`, T02's `Struct(fobj)`)
+                    raise self.bad(f"call of {ast.unparse(n.func)[:40]} (registry kind {self.t18_kind(n.func)}) inside the body of `try: … except EOFError:`")
         later = stmts[stmts.index(st) + 1:]
         saved = list(self.declared)
         hl, hterm = self.block(h.body, 0)
